@@ -1732,15 +1732,17 @@ class BaseRange(TraitType):
             self._vtype = None
             self._type_desc = "a number"
 
+            # A bound given as None means "unbounded on that side"; it does
+            # not determine the value type.
             if isinstance(high, str):
                 self._high_name = high = "object." + high
-            else:
+            elif high is not None:
                 self._vtype = type(high)
             high = compile(str(high), "<string>", "eval")
 
             if isinstance(low, str):
                 self._low_name = low = "object." + low
-            else:
+            elif low is not None:
                 self._vtype = type(low)
             low = compile(str(low), "<string>", "eval")
 
@@ -1919,12 +1921,14 @@ class BaseRange(TraitType):
         """ Returns a description of the trait.
         """
         if self._vtype is not Undefined:
-            low = eval(self._low)
-            high = eval(self._high)
-            low, high = (
-                self._typed_value(low, low, high),
-                self._typed_value(high, low, high),
-            )
+            low_value = eval(self._low)
+            high_value = eval(self._high)
+            # A bound that is currently None is not a bound: leave it untyped.
+            low = high = None
+            if low_value is not None:
+                low = self._typed_value(low_value, low_value, high_value)
+            if high_value is not None:
+                high = self._typed_value(high_value, low_value, high_value)
         else:
             low = self._low
             high = self._high
